@@ -580,6 +580,13 @@ func redactPipelineStage(stage interface{}, redactFieldNames bool, keyPath []str
 					continue
 				}
 			}
+			if name, ok := v.(string); ok && redactNamespaces && (k == "$unionWith" || k == "$out") {
+				// short form of the stage: its argument is the bare collection name
+				if _, isStageDocument := opMeta.(*orderedmap.OrderedMap[string, any]); isStageDocument {
+					newMap.Set(redactedKey, HashName(name))
+					continue
+				}
+			}
 			if str, ok := v.(string); ok && len(str) > 0 && str[0] == '$' && !redactFieldNames {
 				newMap.Set(redactedKey, v)
 				continue
